@@ -1191,7 +1191,8 @@ class DestHandler:
         if fh is None:
             raise ValueError(f"invalid condition code {cond!r} for fault declaration")
         if fh == FaultHandlerCode.NOTICE_OF_CANCELLATION:
-            self._notice_of_cancellation(cond)
+            if not self._notice_of_cancellation(cond):
+                return fh
         elif fh == FaultHandlerCode.NOTICE_OF_SUSPENSION:
             self._notice_of_suspension()
         elif fh == FaultHandlerCode.ABANDON_TRANSACTION:
@@ -1199,10 +1200,27 @@ class DestHandler:
         self.cfg.default_fault_handlers.report_fault(transaction_id, cond, progress)
         return fh
 
-    def _notice_of_cancellation(self, condition_code: ConditionCode) -> None:
+    def _notice_of_cancellation(self, condition_code: ConditionCode) -> bool:
+        """Returns whether the fault still needs to be reported by the fault declaration handler."""
+        # CFDP standard 4.11.2.3.2: Any fault declared in the course of transferring the
+        # Finished (cancel) PDU must result in abandonment of the transaction.
+        if (
+            self._params.completion_disposition == CompletionDisposition.CANCELED
+            and self.states.step == TransactionStep.WAITING_FOR_FINISHED_ACK
+        ):
+            assert self._params.transaction_id is not None
+            # We still call the abandonment callback to ensure the fault is logged.
+            self.cfg.default_fault_handlers.abandoned_cb(
+                self._params.transaction_id,
+                self._params.finished_params.condition_code,
+                self._params.fp.progress,
+            )
+            self._abandon_transaction()
+            return False
         self.states.step = TransactionStep.TRANSFER_COMPLETION
         self._params.finished_params.condition_code = condition_code
         self._params.completion_disposition = CompletionDisposition.CANCELED
+        return True
 
     def _notice_of_suspension(self) -> None:
         # TODO: Implement
